@@ -221,5 +221,4 @@ def run(rep: common.Report, tier: str, seed: int):
 
 
 def replay(data):
-    print('replay: rerun bin/check C09 quick with VERIF_SEED=%s' % data.get('seed'))
-    return 1
+    return common.replay_by_rerun('C09', data, run)
